@@ -37,6 +37,8 @@ def scanner(name, extra_req='', extra_ens='', **kw):
     kw.setdefault('props', ['C14', 'C01', 'C11', 'C15', 'C02', 'C12'])
     kw.setdefault('ghost', [HEAD])
     kw.setdefault('loop_ghost', 'broadcast use lex_lemmas;')
+    # a loop without its own entry (a new one) gets the standard frame and measure of the lexer's loops
+    kw.setdefault('all_loops', 'invariant advanced(*old(self), *self),\ndecreases self.rest().len(),')
     return (name, dict(spec=spec, **kw))
 
 
@@ -89,7 +91,7 @@ decreases self.rest().len(),'''})),
     f.fn('is_id_continue', ret='r', props=ALLP, spec='ensures r == xid_continue(c),')
 
     f.impl(r"Cursor<'_>", [
-        ('advance_token', dict(ret='r', props=ALLP, ghost=[HEAD, ('let res = Token::new(token_kind, self.pos_within_token());', 'before', '''proof {
+        ('advance_token', dict(ret='r', props=ALLP, all_loops='invariant advanced(*old(self), *self),\ndecreases self.rest().len(),', loop_ghost='broadcast use lex_lemmas;', ghost=[HEAD, ('let res = Token::new(token_kind, self.pos_within_token());', 'before', '''proof {
     let n = eaten(*old(self), *self);
     assert(advanced(*old(self), *self));
     assert(old(self).tok() =~= Seq::<char>::empty());
